@@ -40,6 +40,7 @@ class Config:
     other_param: str | None = None     # name of a parameter that is another instance of the class
     header: str = ""
     config_attrs: set = dataclasses.field(default_factory=set)   # attributes read only in dropped code (e.g. silent)
+    clock: str | None = None           # e.g. "datetime.now": calls of it read the parameter (now : Z) every method gets
 
 
 class Translator:
@@ -110,6 +111,8 @@ class Translator:
             self.bad(n, "unknown name")
         if isinstance(n, ast.Attribute):
             if isinstance(n.value, ast.Name) and n.value.id == "self":
+                if ("unwrapped", n.attr) in env:
+                    return env[("unwrapped", n.attr)], "Z"
                 if n.attr in c.fields:
                     f, t = c.fields[n.attr]
                     return f"({c.prefix}{f} {sv})", t
@@ -134,6 +137,21 @@ class Translator:
             if isinstance(n.op, ast.USub) and t == "float":
                 return f"(- {a})%float", "float"
             self.bad(n, "unary operator")
+        if isinstance(n, ast.BoolOp) and isinstance(n.op, ast.And) and len(n.values) >= 2 \
+                and isinstance(n.values[0], ast.Attribute) and isinstance(n.values[0].value, ast.Name) \
+                and n.values[0].value.id == "self" and c.fields.get(n.values[0].attr, (None, None))[1] == "optZ":
+            # `self.x and <expr using self.x>` where x is None or a number-like object that is always truthy
+            # (a datetime): match on the option and read the bound value inside
+            attr = n.values[0].attr
+            f, _ = c.fields[attr]
+            var = f"{f}_v"
+            env2 = dict(env)
+            env2[("unwrapped", attr)] = var
+            rest = ast.BoolOp(op=ast.And(), values=n.values[1:]) if len(n.values) > 2 else n.values[1]
+            r, t = self.ex(rest, env2, sv)
+            if t != "bool":
+                self.bad(n, "and over non-booleans")
+            return f"(match {c.prefix}{f} {sv} with Some {var} => {r} | None => false end)", "bool"
         if isinstance(n, ast.BoolOp):
             parts = [self.ex(v, env, sv) for v in n.values]
             if any(t != "bool" for _, t in parts):
@@ -178,6 +196,8 @@ class Translator:
                 o = {ast.Add: "+", ast.Sub: "-", ast.Mult: "*", ast.Div: "/"}[type(n.op)]
                 return f"({a2} {o} {b2})%float", "float"
             self.bad(n, f"binary operator on {ta}, {tb}")
+        if isinstance(n, ast.Call) and c.clock and not n.args and not n.keywords and ast.unparse(n.func) == c.clock:
+            return "now", "Z"
         if isinstance(n, ast.Call) and isinstance(n.func, ast.Name) and not n.keywords:
             if n.func.id in ("min", "max") and len(n.args) >= 2:
                 parts = [self.ex(a, env, sv) for a in n.args]
@@ -320,6 +340,10 @@ class Translator:
             if isinstance(tgt, ast.Attribute) and isinstance(tgt.value, ast.Name) and tgt.value.id == "self" \
                     and tgt.attr in c.fields:
                 f, ft = c.fields[tgt.attr]
+                if ft == "optZ" and t == "Z":
+                    v, t = f"(Some {v})", "optZ"
+                if ft == "optZ" and t == "unit":
+                    v, t = "None", "optZ"
                 if ft != t:
                     self.bad(st, f"field {tgt.attr} of type {ft} assigned a {t}")
                 return f"(let s := {c.prefix}set_{f} s {v} in\n {self.st(rest, env, kind, two)})"
@@ -348,7 +372,7 @@ class Translator:
                     target = "s" if (recv == "self" or self.alias) else "o"
                     if recv != "self" and not two and not self.alias:
                         self.bad(st, "call on another instance")
-                    callee = f"{c.prefix}{f.attr.lstrip('_')} {target} " + " ".join(args)
+                    callee = f"{c.prefix}{f.attr.lstrip('_')} {target} " + ("now " if c.clock else "") + " ".join(args)
                     if c.methods[f.attr] == "proc":
                         return f"(let {target} := {callee} in\n {self.st(rest, env, kind, two)})"
                     return f"(let {target} := fst ({callee}) in\n {self.st(rest, env, kind, two)})"
@@ -398,6 +422,8 @@ class Translator:
         body = self.st(list(m.body), env, kind, two)
         self.alias = False
         params = " ".join(f"({p} : {t})" for p, t, _ in sig if t not in ("str", "other"))
+        if c.clock:
+            params = "(now : Z) " + params
         fname = f"{c.prefix}{name.lstrip('_')}" + ("_self" if alias else "")
         st = c.state_type
         if two:
@@ -406,8 +432,47 @@ class Translator:
             return f"Definition {fname} (s : {st}) {params} : {st} :=\n {body}.\n"
         return f"Definition {fname} (s : {st}) {params} : {st} * ret :=\n {body}.\n"
 
+    def check_writers(self, allowed=("__init__",)):
+        """Modelled attributes are assigned only inside the translated methods (and the constructor)."""
+        c = self.cfg
+        ok = set(c.methods) | set(allowed)
+        for name, m in self.meths.items():
+            if name in ok:
+                continue
+            for x in ast.walk(m):
+                tg = []
+                if isinstance(x, ast.Assign):
+                    tg = x.targets
+                elif isinstance(x, (ast.AugAssign, ast.AnnAssign)):
+                    tg = [x.target]
+                elif isinstance(x, ast.Delete):
+                    tg = x.targets
+                for t in tg:
+                    for y in ast.walk(t):
+                        if isinstance(y, ast.Attribute) and isinstance(y.value, ast.Name) and y.value.id == "self" \
+                                and y.attr in c.fields:
+                            self.bad(x, f"modelled attribute {y.attr} is assigned in method {name}, which is not translated")
+                if isinstance(x, ast.Call) and isinstance(x.func, ast.Name) and x.func.id in ("setattr", "delattr", "vars"):
+                    self.bad(x, f"{x.func.id} in method {name}")
+                if isinstance(x, ast.Attribute) and x.attr == "__dict__":
+                    self.bad(x, f"__dict__ access in method {name}")
+
+    def callers(self, targets):
+        """{method: [called target, ...]} for every method of the class that calls one of `targets` on self."""
+        out = {}
+        for name, m in self.meths.items():
+            sites = []
+            for x in ast.walk(m):
+                if isinstance(x, ast.Call) and isinstance(x.func, ast.Attribute) and isinstance(x.func.value, ast.Name) \
+                        and x.func.value.id == "self" and x.func.attr in targets:
+                    sites.append((x.lineno, x.col_offset, x.func.attr))
+            if sites:
+                out[name] = [a for _, _, a in sorted(sites)]
+        return out
+
     def emit(self, order):
         c = self.cfg
+        self.check_writers()
         for a in c.audit_methods:
             self.check_audit_method(a)
         out = [c.header, ""]
@@ -419,9 +484,10 @@ class Translator:
         # state record
         fs = list(c.fields.values())
         out.append(f"Record {c.state_type} := mk_{c.state_type} {{ " +
-                   "; ".join(f"{c.prefix}{f} : {t}" for f, t in fs) + " }.")
+                   "; ".join(f"{c.prefix}{f} : {'option Z' if t == 'optZ' else t}" for f, t in fs) + " }.")
         for f, t in fs:
             args = " ".join(("v" if g == f else f"({c.prefix}{g} s)") for g, _ in fs)
+            t = "option Z" if t == "optZ" else t
             out.append(f"Definition {c.prefix}set_{f} (s : {c.state_type}) (v : {t}) : {c.state_type} := "
                        f"mk_{c.state_type} {args}.")
         out.append("")
